@@ -525,7 +525,11 @@ class Registry:
                         dv = self.enc(self.default_value(n, fname))
                     fs.append("{| fname := %s; fty := %s; fdefault := %s |}" % (
                         coq_nat(self.fid(fname)), self.emit_ty(t), coq_opt(dv, "pv")))
-                arms.append(f"| {n} => Some (NClass {{| cflavour := {fl}; cfields := {coq_list(fs, 'field')} |}})")
+                req = []
+                if d[1] == "typeddict" and d[2] != "total=False":
+                    req = [coq_nat(self.fid(fname)) for fname, _, _ in d[3]]
+                arms.append(f"| {n} => Some (NClass {{| cflavour := {fl}; cfields := {coq_list(fs, 'field')}; "
+                            f"crequired := {coq_list(req, 'nat')} |}})")
             elif d[0] == "alias":
                 arms.append(f"| {n} => Some (NType {self.emit_ty(d[2] if isinstance(d[1], str) else d[1])})")
         return "(fun n : nat => match n with " + " ".join(arms) + " | _ => None end)"
